@@ -1,4 +1,87 @@
-// engine K harnesses for module hook 'transpose' (included under cfg(kani) by /repo)
+// engine K — secret_sharing/vector/transpose.rs (property C09: layout changes are lossless)
+use super::*;
+
+fn bit8(m: &[u8; 8], row: usize, col: usize) -> u8 {
+    (m[row] >> col) & 1
+}
+/// 16x16 bit matrix stored as 16 little-endian u16 rows
+fn bit16(m: &[u8; 32], row: usize, col: usize) -> u8 {
+    (m[2 * row + col / 8] >> (col % 8)) & 1
+}
+
+/// out[j].bit(i) == in[i].bit(j) for all i, j
+#[kani::proof]
+fn c09_transpose_8x8() {
+    let x: [u8; 8] = kani::any();
+    let y = transpose_8x8(x);
+    let i: usize = kani::any();
+    let j: usize = kani::any();
+    kani::assume(i < 8 && j < 8);
+    kani::cover!(i == 7 && j == 0);
+    kani::cover!(i != j);
+    assert!(bit8(&y, j, i) == bit8(&x, i, j));
+}
+
+/// transposing twice is the identity (lossless inverse)
+#[kani::proof]
+fn c09_transpose_8x8_involution() {
+    let x: [u8; 8] = kani::any();
+    kani::cover!(x[3] == 0x5a);
+    let y = transpose_8x8(transpose_8x8(x));
+    assert!(y == x);
+}
+
+#[kani::proof]
+#[kani::unwind(6)]
+fn c09_transpose_16x16() {
+    let x: [u8; 32] = kani::any();
+    let y = transpose_16x16(&x);
+    let i: usize = kani::any();
+    let j: usize = kani::any();
+    kani::assume(i < 16 && j < 16);
+    kani::cover!(i == 15 && j == 0);
+    kani::cover!(i < 8 && j >= 8);
+    assert!(bit16(&y, j, i) == bit16(&x, i, j));
+}
+
+#[kani::proof]
+#[kani::unwind(6)]
+fn c09_transpose_16x16_involution() {
+    let x: [u8; 32] = kani::any();
+    kani::cover!(x[17] == 0xa5);
+    let y = transpose_16x16(&transpose_16x16(&x));
+    let k: usize = kani::any();
+    kani::assume(k < 32);
+    assert!(y[k] == x[k]);
+}
+
+/// index plumbing of the blocked transpose: block (i,j) of the source lands, transposed, in block (j,i),
+/// every block is visited exactly once (2x3 blocks).
+#[kani::proof]
+#[kani::unwind(34)]
+fn c09_do_transpose_16_blocks() {
+    let seed: [u8; 32] = kani::any();
+    let mut seen = [[0u8; 2]; 3];
+    let mut ok = true;
+    do_transpose_16(
+        2,
+        3,
+        |i, j| {
+            let mut m = seed;
+            m[0] = (i * 3 + j) as u8;
+            m
+        },
+        |j, i, m_t| {
+            seen[j][i] += 1;
+            let mut m = seed;
+            m[0] = (i * 3 + j) as u8;
+            ok &= m_t == transpose_16x16(&m);
+        },
+    );
+    kani::cover!(true);
+    assert!(ok);
+    assert!(seen == [[1u8; 2]; 3]);
+}
 
 #[cfg(test)]
 include!(concat!(env!("IPA_VERIF_DIR"), "/.build/playback/transpose.rs"));
